@@ -9,6 +9,7 @@ import Scico.Proofs.AdjointComplex
 import Scico.Proofs.AdjointTotal
 import Scico.Proofs.AdjointSlab
 import Scico.Proofs.AdjointSpectral
+import Scico.Proofs.AdjointLink
 
 namespace Scico.Props.C01
 open Scico.Adjoint Finset
@@ -289,6 +290,20 @@ theorem C01_circ_real_wrappers {A : Op ℂ} (hA : IsAdjRe A) :
     IsAdjRe (Op.wrapRR creal A) ∧ IsAdjRe (Op.wrapRC creal A) :=
   ⟨wrapRR_isAdjRe hA, wrapRC_isAdjRe hA⟩
 
+/-! ### the two layers together -/
+
+/-- Every derivation tree that scico's own construction tests accept (typed tree `t`, `wfT`: shapes compared as tuples,
+    dtype test of compositions and stacks), read as a value tree `e` with the flags scico computes (`Erase`: the `.T`
+    branch from the declared input dtype, replication strides from the shapes), over leaves that satisfy the adjoint
+    identity and have the declared sizes: the value tree passes `wf`, the derived operator has the declared flat sizes
+    and satisfies the adjoint identity.  (With `C01_adj_total`: and its `adj` never fails for a conforming input.) -/
+theorem C01_typed_tree (coded : Bool) (env : Nat → Op K) (envT : Nat → TOp) (hsz : SizesAgree env envT)
+    (henv : ∀ i, IsAdj (env i)) {t : TExpr} {e : Expr K} (he : Erase coded envT t e)
+    (hw : wfT coded envT t = true) (hp : posOK coded envT t) (hd : divOK e) :
+    IsAdj (run env e) ∧ (run env e).nin = (runT coded envT t).ish.size ∧ (run env e).nout = (runT coded envT t).osh.size :=
+  ⟨(isAdj_iff _).mpr (typed_tree_isAdjW test_id coded env envT hsz (fun i => (isAdj_iff _).mp (henv i)) he hw hp hd),
+    (erase_good coded env envT hsz he hw hp).nin, (erase_good coded env envT hsz he hw hp).nout⟩
+
 /-! ### non-vacuity -/
 
 example : JaxTransposeRC probeTransposeRC := probeTransposeRC_ok
@@ -363,5 +378,16 @@ example : (23 : Nat) ≤ 3 * 10 ∧ ∀ p < 23, (fun _ => (1 : K)) p = 0 ∨ (fu
 example : star Complex.I = Complex.I⁻¹ := by simp
 example (D : V ℂ) : IsAdjRe (Op.spectral 4 (fun f j => Complex.I ^ (j * f)) (fun i f => ((4 : ℕ) : ℂ)⁻¹ * Complex.I⁻¹ ^ (i * f)) D) :=
   isAdjRe_of_isAdj (C01_dft_pair 4 Complex.I (by simp) D)
+
+-- hypotheses of `C01_typed_tree`: matrix leaves of the declared sizes, an accepted typed tree and its erasure
+example (A : Nat → Nat → K) :
+    let envT : Nat → TOp := fun _ => stdLeaf (.arr [3]) (.arr [2]) .c128 .c128 true
+    let env : Nat → Op K := fun _ => Op.mat 2 3 A
+    let t : TExpr := .vfin (.vcons (.tr (.herm (.leaf 0))) (.vone (.smul .wcplx (.leaf 0))))
+    SizesAgree env envT ∧ wfT false envT t = true ∧ posOK false envT t
+      ∧ Erase (α := K) false envT t (.vcons (.tr true (.herm (.leaf 0))) (.vcons (.smul 2 (.leaf 0)) (.vnil 3))) := by
+  intro envT env t
+  refine ⟨fun _ => ⟨rfl, rfl⟩, by decide, by simp [t, posOK], ?_⟩
+  exact .vfin (.vcons (.tr (.herm (.leaf 0))) (.vone (.smul .wcplx 2 (.leaf 0))))
 
 end Scico.Props.C01
